@@ -24,6 +24,7 @@ type deferRec struct {
 }
 
 type retRec struct {
+	block   int
 	guard   string
 	results []Val
 	state   *State
@@ -326,6 +327,9 @@ type inEdge struct {
 
 func (f *Frame) block(b *ssa.BasicBlock, entryGuard string, entryState *State) {
 	e := f.e
+	if f.parent == nil {
+		e.curBlock = b.Index
+	}
 	var st *State
 	var reach string
 	var ins []inEdge
